@@ -40,6 +40,8 @@ pub struct RoundInfo {
     pub committer_new_leaf: u32,
     /// op number during which the winning commit was built (for the crypto event log)
     pub build_op: u64,
+    /// encoded PreSharedKeyID of every applied PSK proposal, in the order of the commit
+    pub applied_psk_ids: Vec<Vec<u8>>,
 }
 
 #[allow(unused_variables)]
@@ -466,6 +468,7 @@ impl World {
         let mut added_names: Vec<Vec<u8>> = vec![];
         let mut removed_leaves: Vec<u32> = vec![];
         let mut has_resumption_psk = false;
+        let mut applied_psk_ids: Vec<Vec<u8>> = vec![];
         for p in &applied_props {
             applied.push(proposal_kind(p).to_string());
             match p {
@@ -474,7 +477,12 @@ impl World {
                     added_names.push(name_of(a.signing_identity()));
                 }
                 Proposal::Remove(r) => removed_leaves.push(r.to_remove()),
-                Proposal::Psk(p) if p.external_psk_id().is_none() => has_resumption_psk = true,
+                Proposal::Psk(p) => {
+                    if p.external_psk_id().is_none() {
+                        has_resumption_psk = true;
+                    }
+                    applied_psk_ids.push(p.mls_encode_to_vec().unwrap_or_default());
+                }
                 _ => {}
             }
         }
@@ -581,6 +589,7 @@ impl World {
             op_window: (op0, self.op_no),
             committer_new_leaf: self.leaf_of(winner),
             build_op: build_ops.get(&winner).copied().unwrap_or(0),
+            applied_psk_ids,
         };
         self.out.cov.bump("commit_accepted");
         if info.has_path {
@@ -785,6 +794,7 @@ impl World {
             op_window: (op0, self.op_no),
             committer_new_leaf: self.leaf_of(joiner),
             build_op: ext_build_op,
+            applied_psk_ids: vec![],
         };
         self.out.cov.bump("commit_accepted");
         self.out.cov.bump("commit_external");
